@@ -58,6 +58,9 @@ def in_scope(prop, b):
             return bool(d & (ALLOBS | {"keyStable"}))
         return False
     if prop == "C05":
+        if ev in ("Put", "Remove", "LoseRights", "PushEp", "PopEp", "EReset"):
+            # the editing API is the "direct set-up" of C05: the key and what the operation did to the board
+            return bool(d & {"key", "keyStable", "placement", "cr", "ep", "result"})
         return bool(d & {"key", "keyStable"}) and not (ev in ("Query",) and "key" not in d)
     if prop == "C12":
         return bool(d & {"sum", "inv"})
@@ -214,6 +217,11 @@ def c05(ctx):
         absorb_bad(ctx, bad)
         bad2, ev2, h2, sk2 = run_traces(ctx, "scripts", 1, 0, 0, label="scripts%d" % d)
         absorb_bad(ctx, bad2)
+        # direct set-up through the editing API, including refused operations
+        bad3, ev3, h3, sk3 = run_traces(ctx, "edit", 4, 6 if quick else 40, 120, label="edit%d" % d)
+        absorb_bad(ctx, bad3)
+        ev2 += ev3
+        h2 += h3
         ctx.evaluations += ev + ev2
         ctx.nontrivial += hist + h2
     ctx.extra["table_draws_examined"] = draws
